@@ -42,8 +42,8 @@ Section Lz4Proofs.
       assert (Hn : 1 <= zlen c) by (destruct c; [contradiction | rewrite zlen_cons; pose proof (zlen_nonneg c); lia]).
       pose proof (try_sizes_finds c (x0 :: xr) Hn Hr Hbig Hsmall) as Ht.
       unfold lz4_decompress.
-      destruct c as [|b [|b' r]]; [contradiction | | exact Ht].
-      destruct b; [contradiction | exact Ht | exact Ht].
+      destruct c as [|b [|b' r]]; [contradiction | | destruct b; exact Ht].
+      destruct b; [exfalso; apply Hc1; reflexivity | exact Ht | exact Ht].
   Qed.
 
   (* the length-prefixed body format *)
@@ -57,7 +57,8 @@ Section Lz4Proofs.
   Proof. unfold be32. cbn [be_bytes app]. repeat eexists. Qed.
 
   Theorem lz4_with_length_roundtrip x : bytes_ok x -> zlen x < 4294967296 ->
-    exists c, lz4_compress_with_length compress_block bound x = Ok c /\ bytes_ok c /              lz4_decompress_with_length uncompress_block c = Ok x.
+    exists c, lz4_compress_with_length compress_block bound x = Ok c /\ bytes_ok c /\
+    lz4_decompress_with_length uncompress_block c = Ok x.
   Proof.
     intros Hx Hl. destruct (lz4_roundtrip x Hx) as (c & Hc & Hcb & Hd).
     unfold lz4_compress in Hc. unfold lz4_compress_with_length. rewrite Hc.
@@ -97,7 +98,8 @@ Theorem segment_with_lz4_roundtrip compress_block uncompress_block bound :
   (forall x, bytes_ok x -> zlen x <= 131071 -> forall c, compress_block x (bound (zlen x)) = Ok c -> zlen c < 2147483648) ->
   forall sc p rest, bytes_ok p -> Z.of_nat (length p) <= 131071 ->
   let k := lz4_payload_compressor compress_block uncompress_block bound in
-  exists bs cp, cmp k p = Ok cp /\ encode_segment (Some k) sc p = Ok bs /    exists hd transmitted,
+  exists bs cp, cmp k p = Ok cp /\ encode_segment (Some k) sc p = Ok bs /\
+    exists hd transmitted,
     decode_segment (Some k) (bs ++ rest) =
     Ok (mkSegment (mkHeader sc (Z.of_nat (length p)) (compressed_len_of p cp) (checksum_koopman hd 5)) p (checksum_ieee transmitted), rest).
 Proof.
@@ -124,3 +126,20 @@ Section SnappyProofs.
     exists c, snappy_compress_with_length snappy_encode x = Ok c /\ snappy_decompress_with_length snappy_decode c = Ok x.
   Proof. intro H. eexists. split; [reflexivity|]. apply contract. exact H. Qed.
 End SnappyProofs.
+
+(* ---------------------------------------------------------------- non-vacuity of the contract *)
+Definition store_compress (x : list Z) (_ : Z) : result (list Z) := Ok (match x with [] => [0] | _ => 1 :: x end).
+Definition store_uncompress (c : list Z) (n : Z) : result (list Z) :=
+  match c with 1 :: x => if zlen x <=? n then Ok x else Err | _ => Err end.
+Lemma store_contract : lz4_block_contract store_compress store_uncompress (fun n => n + 1).
+Proof.
+  intros x Hx. destruct x as [|x0 xr].
+  - exists [0]. split; [reflexivity|]. split; [constructor; [unfold byte_ok; lia | constructor]|].
+    split; [reflexivity|]. intro H. contradiction.
+  - exists (1 :: x0 :: xr). split; [reflexivity|]. split; [constructor; [unfold byte_ok; lia | exact Hx]|].
+    split; [discriminate|]. intros _. split; [discriminate|]. split; [discriminate|].
+    split; [rewrite (zlen_cons 1); pose proof (zlen_nonneg (x0 :: xr)); lia|].
+    split; intros n Hn; cbn [store_uncompress].
+    + replace (zlen (x0 :: xr) <=? n) with true by lia. reflexivity.
+    + replace (zlen (x0 :: xr) <=? n) with false by lia. reflexivity.
+Qed.
